@@ -193,7 +193,17 @@ def rule_usable(R):
     clause_inflight_read_after_reset(R, "usable/inflight-read-after-reset")
 
 
+def rule_tail(R):
+    """CONNECT is encoded into the free tail of the transmit arena: the tail is as large as the retained packets allow
+    only if compaction really reclaims every hole, and `used` is kept by new/clear, the enqueue and compaction alone
+    (shared with C17)"""
+    from . import c17
+    c17.rule_compact(R)
+    c17.rule_used(R)
+
+
 def run(R):
+    R.rule("tail", rule_tail)
     R.rule("usable", rule_usable)
     R.rule("advertised", rule_advertised)
     R.rule("reset", rule_reset)
